@@ -155,22 +155,26 @@ def isStrict : Val → Bool
   | .list _ | .vec _ | .bytes _ | .str _ => true
   | _ => false
 
+/-- `s !? i` -/
+def safeAt (s a : Val) : Out Val :=
+  -- `s[i]` for 0 ≤ i < len, null for every other index object (and for a null sequence)
+  match s with
+  | .null => .ok .null
+  | s =>
+    if isStrict s then
+      match items s, asInt a with
+      | some xs, some n => if 0 ≤ n ∧ n < xs.length then ofOpt xs[n.toNat]? else .ok .null
+      | _, _ => .ok .null
+    else .throw
+
 def accessor2 (name : String) (s a : Val) : Out Val :=
   match name with
   | "!!" => index s a
   | "index" => index s a
   | "take" => slice s none (some a)
   | "drop" => slice s (some a) none
-  | "!?" =>
-    -- `s[i]` for 0 ≤ i < len, null for every other index object (and for a null sequence)
-    match s with
-    | .null => .ok .null
-    | s =>
-      if isStrict s then
-        match items s, asInt a with
-        | some xs, some n => if 0 ≤ n ∧ n < xs.length then ofOpt xs[n.toNat]? else .ok .null
-        | _, _ => .ok .null
-      else .throw
+  | "!?" => safeAt s a
+  | "index?" => safeAt s a
   | "!%" =>
     -- `s[i mod len]`
     if isStrict s then
